@@ -155,14 +155,14 @@ func c08BuildUniverse(t *testing.T, nSecrets, nTransports int, pins map[int]c08P
 	}
 	rm := c08NewManager(t, u)
 
-	// secrets are fixed (not seed dependent): the seed drives the histories, not the universe
-	rng := kit.Rand("c08-universe-fixed")
+	rng := kit.Rand("c08-universe")
 	phIdx := map[string]int{}
+	lastErr := ""
 	for s := 0; s < nSecrets; s++ {
 		pin, pinned := pins[s]
 		for try := 0; ; try++ {
 			if try > 5000 {
-				t.Fatal("infrastructure: cannot find a secret whose derived phantoms have the wanted families")
+				t.Fatalf("infrastructure: cannot find a secret whose derived phantoms have the wanted families (last error: %s)", lastErr)
 			}
 			secret := make([]byte, 32)
 			rng.Read(secret)
@@ -200,7 +200,10 @@ func c08BuildUniverse(t *testing.T, nSecrets, nTransports int, pins map[int]c08P
 					}
 					regs, err := rm.parseRegMessage(k.msg)
 					if err != nil || len(regs) != 1 || regs[0] == nil {
-						t.Fatalf("infrastructure: parseRegMessage(%s): %d registrations, err %v", k.name, len(regs), err)
+						// phantom selection refuses some seeds (C14's business): take another secret
+						lastErr = fmt.Sprintf("parseRegMessage(%s): %d registrations, err %v", k.name, len(regs), err)
+						ok = false
+						break
 					}
 					k.tmpl = regs[0]
 					if (k.tmpl.PhantomIp.To4() == nil) != v6 {
@@ -274,6 +277,22 @@ type c08Op struct {
 	Kind uint8
 	K    int8  // key index
 	D    int16 // minutes
+}
+
+func (o c08Op) keyed() bool { return o.Kind == c08Reg || o.Kind == c08Val || o.Kind == c08Con || o.Kind == c08Ingest }
+
+// c08Enum describes one exhaustive enumeration.
+type c08Enum struct {
+	alpha, alphaS0 []c08Op // all letters; the letters allowed while no registration has been named yet
+	maxLen         int
+	symmetric      bool // enumerate modulo renaming of the two secrets: the first registration named is one of secret 0
+}
+
+func (en *c08Enum) letters(seenKey bool) []c08Op {
+	if en.symmetric && !seenKey {
+		return en.alphaS0
+	}
+	return en.alpha
 }
 
 func (u *c08Universe) opString(o c08Op) string {
@@ -996,8 +1015,8 @@ func (w *c08Worker) digest() string {
 }
 
 // dfs visits every extension of the history buf[:n], whose state is f.
-func (w *c08Worker) dfs(buf []c08Op, n int, f *c08Frame, alphabet []c08Op, maxLen int) {
-	for _, a := range alphabet {
+func (w *c08Worker) dfs(buf []c08Op, n int, f *c08Frame, en *c08Enum, seenKey bool) {
+	for _, a := range en.letters(seenKey) {
 		buf[n] = a
 		seq := buf[:n+1]
 		w.restore(f)
@@ -1040,8 +1059,8 @@ func (w *c08Worker) dfs(buf []c08Op, n int, f *c08Frame, alphabet []c08Op, maxLe
 				w.crossChecks++
 			}
 		}
-		if n+1 < maxLen {
-			w.dfs(buf, n+1, w.take(), alphabet, maxLen)
+		if n+1 < en.maxLen {
+			w.dfs(buf, n+1, w.take(), en, seenKey || a.keyed())
 		}
 	}
 }
@@ -1121,8 +1140,8 @@ func (w *c08Worker) flush(mon string) {
 
 func c08Workers() int {
 	n := runtime.GOMAXPROCS(0) / 2
-	if n > 6 {
-		n = 6
+	if n > kit.Tier(6, 8) {
+		n = kit.Tier(6, 8)
 	}
 	if n < 1 {
 		n = 1
@@ -1146,7 +1165,12 @@ func TestVerifC08Exhaustive(t *testing.T) {
 		alphabet = append(alphabet, c08Op{Kind: c08Adv, D: d})
 	}
 	alphabet = append(alphabet, c08Op{Kind: c08Sweep})
-	maxLen := kit.Tier(5, 6)
+	var alphaS0 []c08Op
+	for _, a := range alphabet {
+		if !a.keyed() || u.keys[a.K].S == 0 {
+			alphaS0 = append(alphaS0, a)
+		}
+	}
 
 	old := debug.SetGCPercent(1000) // the live heap is tiny and everything else is garbage
 	defer debug.SetGCPercent(old)
@@ -1154,96 +1178,22 @@ func TestVerifC08Exhaustive(t *testing.T) {
 	if !canCopy {
 		rec.Note("every history is re-executed from an empty registry (slow): " + why)
 	}
-
-	// slow enumeration: every history is executed from an empty registry
-	var visit func(w *c08Worker, buf []c08Op, n int)
-	visit = func(w *c08Worker, buf []c08Op, n int) {
-		div := w.run(buf[:n], n-1, true)
-		w.addDecisions(w.prevC)
-		if div || n >= maxLen {
-			return
+	var all []*c08Worker
+	// quick: every history up to 4, and up to 5 modulo renaming of the two secrets; thorough: up to 5, and up to 6 modulo renaming
+	for _, en := range []*c08Enum{
+		{alpha: alphabet, alphaS0: alphaS0, maxLen: kit.Tier(4, 5), symmetric: false},
+		{alpha: alphabet, alphaS0: alphaS0, maxLen: kit.Tier(5, 6), symmetric: true},
+	} {
+		all = append(all, c08Enumerate(t, rec, u, en, canCopy)...)
+		what := fmt.Sprintf("every history of length <= %d over the %d-letter alphabet {register, validate, connect} x {2 secrets x (min, prefix) x (v4, v6 phantom)} + advance{4m,7m,3h,4h} + sweep", en.maxLen, len(alphabet))
+		if en.symmetric {
+			what += ", modulo renaming of the two secrets (the first registration a history names belongs to secret 0)"
 		}
-		for _, a := range alphabet {
-			buf[n] = a
-			visit(w, buf, n+1)
-		}
+		rec.Exhaustive(what + "; a duplicate is register of a tracked registration; a look-up follows every history, and every prefix is a history; a history whose tracked set already diverged is not extended")
 	}
-	// below runs everything below a prefix that was itself already visited
-	below := func(w *c08Worker, buf []c08Op, n int) {
-		if !canCopy {
-			for _, a := range alphabet {
-				buf[n] = a
-				visit(w, buf, n+1)
-			}
-			return
-		}
-		if n > 0 && w.run(buf[:n], 1<<30, false) {
-			return // the prefix diverged: reported when it was visited, not extended
-		}
-		if n == 0 {
-			w.reset()
-		}
-		w.dfs(buf, n, w.take(), alphabet, maxLen)
-	}
-
-	// histories of length 1 and 2 are visited here; the sub-trees below them are fanned out to the workers
-	root := c08NewWorker(t, u, rec)
-	c08Guard(t, func() {
-		save := maxLen
-		maxLen = 2
-		below(root, make([]c08Op, save), 0)
-		maxLen = save
-	})
-	var jobs [][2]c08Op
-	for _, a := range alphabet {
-		for _, b := range alphabet {
-			jobs = append(jobs, [2]c08Op{a, b})
-		}
-	}
-	ch := make(chan [2]c08Op, len(jobs))
-	for _, j := range jobs {
-		ch <- j
-	}
-	close(ch)
-	workers := []*c08Worker{root}
-	var wg sync.WaitGroup
-	var mu sync.Mutex
-	var fatal interface{}
-	for i := 0; i < c08Workers() && maxLen > 2; i++ {
-		w := c08NewWorker(t, u, rec)
-		workers = append(workers, w)
-		wg.Add(1)
-		go func() {
-			defer wg.Done()
-			defer func() {
-				if r := recover(); r != nil {
-					mu.Lock()
-					fatal = fmt.Sprintf("%v\n%s", r, debug.Stack())
-					mu.Unlock()
-				}
-			}()
-			buf := make([]c08Op, maxLen)
-			for j := range ch {
-				buf[0], buf[1] = j[0], j[1]
-				if !canCopy {
-					// the slow visit reports the prefix itself again: it was visited above, so only go below it
-					if w.run(buf[:2], 1<<30, false) {
-						continue
-					}
-				}
-				below(w, buf, 2)
-			}
-		}()
-	}
-	wg.Wait()
-	if fatal != nil {
-		t.Fatalf("infrastructure: worker failed: %v", fatal)
-	}
-	for _, w := range workers {
+	for _, w := range all {
 		w.flush("exhaustive")
 	}
-	rec.Exhaustive(fmt.Sprintf("every history of length <= %d over the %d-letter alphabet {register, validate, connect} x {2 secrets x (min, prefix) x (v4, v6 phantom)} + advance{4m,7m,3h,4h} + sweep "+
-		"(a duplicate is register of a tracked registration; a look-up follows every history, and every prefix is a history); a history whose tracked set already diverged is not extended", maxLen, len(alphabet)))
 	rec.Note(fmt.Sprintf("universe: %s", c08UniverseString(u)))
 
 	// a few written-out histories (re-run on a separate worker so that they do not count twice)
@@ -1272,6 +1222,95 @@ func TestVerifC08Exhaustive(t *testing.T) {
 			rec.Sample(map[string]interface{}{"history": trace, "disagreements_with_reference": len(sw.viols)})
 		}
 	})
+}
+
+// c08Enumerate runs one exhaustive enumeration on a pool of workers and returns them (for their counters).
+func c08Enumerate(t *testing.T, rec *kit.Rec, u *c08Universe, en *c08Enum, canCopy bool) []*c08Worker {
+	// slow enumeration: every history is executed from an empty registry
+	var visit func(w *c08Worker, buf []c08Op, n int, seenKey bool, maxLen int)
+	visit = func(w *c08Worker, buf []c08Op, n int, seenKey bool, maxLen int) {
+		div := w.run(buf[:n], n-1, true)
+		w.addDecisions(w.prevC)
+		if div || n >= maxLen {
+			return
+		}
+		for _, a := range en.letters(seenKey) {
+			buf[n] = a
+			visit(w, buf, n+1, seenKey || a.keyed(), maxLen)
+		}
+	}
+	// below runs everything below a prefix that was itself already visited
+	below := func(w *c08Worker, buf []c08Op, n int, seenKey bool, maxLen int) {
+		if n > 0 && w.run(buf[:n], 1<<30, false) {
+			return // the prefix diverged: reported when it was visited, not extended
+		}
+		if !canCopy {
+			for _, a := range en.letters(seenKey) {
+				buf[n] = a
+				visit(w, buf, n+1, seenKey || a.keyed(), maxLen)
+			}
+			return
+		}
+		if n == 0 {
+			w.reset()
+		}
+		e2 := *en
+		e2.maxLen = maxLen
+		w.dfs(buf, n, w.take(), &e2, seenKey)
+	}
+
+	// histories of length 1 and 2 are visited here; the sub-trees below them are fanned out to the workers
+	root := c08NewWorker(t, u, rec)
+	c08Guard(t, func() {
+		top := 2
+		if en.maxLen < top {
+			top = en.maxLen
+		}
+		below(root, make([]c08Op, 2), 0, false, top)
+	})
+	workers := []*c08Worker{root}
+	if en.maxLen <= 2 {
+		return workers
+	}
+	var jobs [][2]c08Op
+	for _, a := range en.letters(false) {
+		for _, b := range en.letters(a.keyed()) {
+			jobs = append(jobs, [2]c08Op{a, b})
+		}
+	}
+	ch := make(chan [2]c08Op, len(jobs))
+	for _, j := range jobs {
+		ch <- j
+	}
+	close(ch)
+	var wg sync.WaitGroup
+	var mu sync.Mutex
+	var fatal interface{}
+	for i := 0; i < c08Workers(); i++ {
+		w := c08NewWorker(t, u, rec)
+		workers = append(workers, w)
+		wg.Add(1)
+		go func() {
+			defer wg.Done()
+			defer func() {
+				if r := recover(); r != nil {
+					mu.Lock()
+					fatal = fmt.Sprintf("%v\n%s", r, debug.Stack())
+					mu.Unlock()
+				}
+			}()
+			buf := make([]c08Op, en.maxLen)
+			for j := range ch {
+				buf[0], buf[1] = j[0], j[1]
+				below(w, buf, 2, j[0].keyed() || j[1].keyed(), en.maxLen)
+			}
+		}()
+	}
+	wg.Wait()
+	if fatal != nil {
+		t.Fatalf("infrastructure: worker failed: %v", fatal)
+	}
+	return workers
 }
 
 func c08Guard(t *testing.T, f func()) {
